@@ -176,6 +176,18 @@ function callerCensus() {
   function who() { return who.caller === callerCensus ? 'ok' : String(who.caller && who.caller.name); }
   return names(a) + '~' + names(b) + '~' + who();
 }
+// everything in the interpreter that could keep process-wide state behind a built-in: locale
+// printers, local-time conversion, the default random source, regexp compilation, number parsing
+function wideProbe(loc, tag) {
+  var out = [];
+  for (var i = 0; i < 6; i++) out.push((1234567.5 + i * tag).toLocaleString(loc));
+  yield();
+  var d = new Date(2000 + tag, tag % 12, 10, 11, 12, 13);
+  out.push(d.toLocaleString(), d.getHours(), d.toString().length, d.getTimezoneOffset());
+  var r = Math.random(); out.push(r >= 0 && r < 1);
+  out.push(new RegExp('w' + tag + '+', 'g').test('xw' + tag + tag), parseFloat('1e' + (tag % 5)), (tag + 0.5).toFixed(1), encodeURIComponent('ü' + tag), 'I'.toLowerCase() + 'ß'.toUpperCase());
+  return out.join(' ');
+}
 var dbgSeen = 'unset';
 function depthProbe() { return (function d(n) { try { return d(n + 1); } catch (e) { return n; } })(0); }
 function traceProbe() { function t(n) { if (n === 0) throw new Error('tp'); t(n - 1); } try { t(30); } catch (e) { return e.stack.split('\n').length; } }
@@ -204,8 +216,20 @@ function sweep(tag) {
   for (var j = 0; j < l.length; j++) { try { Object.getPrototypeOf(Object(l[j]))['sl' + tag] = tag; n++; } catch (e) {} }
   return n + ':' + census();
 }
+T.caught = [thrown(0), thrown(1), thrown(2), thrown(3), thrown(5)];
+T.made = [new Error('made'), new TypeError('madeT'), T.err];
+// the native accessors and bridged values that exist before any Copy, as this runtime sees them
+function nativeCensus() {
+  var out = [], es = T.caught.concat(T.made);
+  for (var i = 0; i < es.length; i++) out.push(typeof es[i].stack + String(es[i].stack).length + Object.getOwnPropertyNames(es[i]).length);
+  var ms = [goS.Hello, goS.Sum, goS.Label, goV.Label, goF, goC];
+  for (var j = 0; j < ms.length; j++) out.push(typeof ms[j] + (ms[j] instanceof Function ? 'F' : 'n') + (Object.getPrototypeOf(ms[j]) === Function.prototype ? 'P' : 'p') + Object.getOwnPropertyNames(ms[j]).length + typeof ms[j].mark);
+  out.push(goS.Hello('c') + goS.Sum(1, 2) + goS.Label() + goV.Label() + goF(3, 4) + goC('q', 1) + goM.b + goL.length + goL[1] + goA[2] + goS.Name + goS.Count + goS.Tags.length);
+  out.push(typeof T.fn.caller + String(T.fn.caller) + typeof note.caller);
+  return out.join(',');
+}
 function peeks() {
-  var out = [];
+  var out = [nativeCensus()];
   for (var i = 0; i < T.cl.length; i++) out.push(T.cl[i].peek());
   for (var j = 0; j < T.ma.length; j++) out.push(T.ma[j].peek());
   for (var k = 0; k < T.gs.length; k++) out.push(T.gs[k].v);
@@ -251,7 +275,15 @@ func jsq(s string) string { b, _ := json.Marshal(s); return string(b) }
 func (g *gen) generic(R int) string {
 	w, w2, n, n2 := jsq(g.word()), jsq(g.word()), g.num(), g.num()
 	k := g.r.Intn(7) + 2
-	switch g.r.Intn(44) {
+	switch g.r.Intn(50) {
+	case 44, 45, 46:
+		// process-wide locale machinery: every program picks its own locale
+		loc := Pick(g.r, []string{"'de'", "'fr'", "'en-IN'", "'nl-NL'", "'en-US'", "'ja'", "'es'", "'pt-BR'", "", "undefined"})
+		return fmt.Sprintf(`var out = []; for (var i = 0; i < %d; i++) { out.push((1234567.5 + i * %d).toLocaleString(%s)); if (i %% 3 == 0) yield(); } out.join(' ') + '|' + [1234.5, %s].toLocaleString() + '|' + (%s).toLocaleString(%s)`, k*3, R, loc, n, n2, loc)
+	case 47, 48:
+		return fmt.Sprintf(`var d = new Date(%d, %d, 15, 13, 45, 30, %d); [d.getHours(), d.getDay(), d.getDate(), d.toString(), d.toLocaleString(), d.toLocaleTimeString(), d.toLocaleDateString(), d.toDateString(), d.toTimeString(), d.getTimezoneOffset(), new Date(d.getTime()).setHours(%d), new Date(d.getTime()).setMonth(%d, 31), Date.parse(d.toString()), new Date(%d, 0).getFullYear()].join('|')`, 1971+R*3, k, R, k, k, R)
+	case 49:
+		return fmt.Sprintf(`var pats = ['a+', '[%d-9]x?', '(b|c)*d', '^\\s+|\\s+$', 'q{%d,}', '\\bw%d']; var out = []; for (var i = 0; i < pats.length; i++) { var re = new RegExp(pats[i], i %% 2 ? 'gi' : 'm'); out.push(re.test('aab%dx cd  qqqq w%d') + ':' + re.lastIndex + ':' + 'aabxcd'.replace(re, '#')); } out.join()`, R%9, k%4+1, R, R, R)
 	case 0:
 		return fmt.Sprintf(`var r=/a(b+)?c|(x)/gi; var s=''; for(var i=0;i<%d;i++){ s+= (%s+'xabbbcx').replace(r,'[$1$2$&]'); } s`, k, w)
 	case 1:
@@ -603,6 +635,30 @@ func (g *gen) postcopy(R int) string {
 	}
 }
 
+
+// programs over what exists in a template BEFORE Copy and is backed by native Go closures or bridged
+// Go values: method wrappers of a bridged struct, Error.stack accessors, function caller accessors,
+// bridged maps/slices/arrays/funcs, and instanceof against the runtime's own intrinsics
+func (g *gen) native(R int) string {
+	k := g.r.Intn(15)
+	switch g.r.Intn(9) {
+	case 0, 1:
+		return fmt.Sprintf(`goS.Hello.mark = %d; var h = goS.Hello; h.own = %d; [typeof goS.Hello.mark, h.own, goS.Hello instanceof Function, Object.getPrototypeOf(goS.Hello) === Function.prototype, goS.Hello('r%d'), goS.Sum(%d, 1), goS.Label(), goV.Label(), String(goS.Hello).length].join() + '|' + nativeCensus()`, R, R, R, R)
+	case 2:
+		return fmt.Sprintf(`Function.prototype['fp%d'] = %d; var m = [goS.Hello, goS.Sum, goV.Label, goF, goC]; var out = []; for (var i = 0; i < m.length; i++) { m[i]['w%d'] = i; out.push(m[i]['fp%d'] + ':' + (m[i] instanceof Function) + ':' + typeof m[i]['w%d']); } out.join() + '|' + nativeCensus()`, R, R, R, R, R)
+	case 3, 4:
+		return fmt.Sprintf(`var a = T.made[%d %% T.made.length], b = T.caught[%d %% T.caught.length]; a.stack = 'rw%d'; b.stack = %d; [typeof a.stack, String(a.stack).slice(0, 14), typeof b.stack, String(b.stack).slice(0, 14), a.message, b.name].join() + '|' + nativeCensus()`, k, k, R, R)
+	case 5:
+		return fmt.Sprintf(`var e = T.caught[%d %% T.caught.length]; e.message = 'm%d'; var d = delete e.stack; e.stack = 's%d'; [d, typeof e.stack, e.stack, 'stack' in e, String(e)].join() + '|' + nativeCensus()`, k, R, R)
+	case 6:
+		return fmt.Sprintf(`[goM.a, goM.b, goM.c.length, goM.c[1], Object.keys(goM).sort().join(''), goL.join(''), goL.length, goA.length, goA[1], goF(%d, 2), goC(%d, 'z'), goS.Name, goS.Count, goS.Tags.join(''), goV.Name, typeof goM.nope, 'a' in goM, 1 in goL].join()`, R, R)
+	case 7:
+		return fmt.Sprintf(`var en = 'none'; try { T.fn.caller = %d; } catch (e) { en = e.name; } try { Object.defineProperty(note, 'caller', {value: %d}); } catch (e) { en += e.name; } [typeof T.fn.caller, en, typeof note.caller, T.fn(2)].join() + '|' + nativeCensus()`, R, R)
+	default:
+		return `[T.arr instanceof Array, T.fn instanceof Function, T.err instanceof RangeError, T.err instanceof Error, T.date instanceof Date, T.re instanceof RegExp, T.caught[0] instanceof TypeError, T.caught[1] instanceof ReferenceError, goS.Hello instanceof Function, goF instanceof Function, goC instanceof Object, Object.getPrototypeOf(T.o3) === Object.prototype, Object.getPrototypeOf(T.caught[2]) === RangeError.prototype, T.bf[1] instanceof Function, T.args instanceof Object].join()`
+	}
+}
+
 // programs whose function literals have their own vars and nested function declarations that
 // matter (hoisting, two closures over one local, recursion through a nested declaration): run again and
 // again from one shared Program/Script, every run must behave like the first
@@ -679,7 +735,9 @@ func (g *gen) familyJob() Job {
 		np := 3 + r.Intn(6)
 		var ps []string
 		for k := 0; k < np; k++ {
-			switch r.Intn(9) {
+			switch r.Intn(11) {
+			case 9, 10:
+				ps = append(ps, g.native(i+1))
 			case 0, 1:
 				ps = append(ps, `settingsProbe()`)
 			case 2:
@@ -721,7 +779,9 @@ func (g *gen) job(idx int) Job {
 		np := 3 + r.Intn(6)
 		for i := 0; i < np; i++ {
 			// a shared program cannot mention the runtime tag: it is the same text for all
-			switch r.Intn(6) {
+			switch r.Intn(7) {
+			case 6:
+				pool = append(pool, g.native(7))
 			case 0:
 				pool = append(pool, g.generic(7))
 			case 1:
@@ -744,6 +804,8 @@ func (g *gen) job(idx int) Job {
 				ps = append(ps, Pick(r, pool))
 			case r.Intn(4) == 0:
 				ps = append(ps, g.stateful(rt+1))
+			case r.Intn(5) == 0:
+				ps = append(ps, g.native(rt+1))
 			case r.Intn(3) == 0:
 				ps = append(ps, g.shaped(rt+1))
 			case r.Intn(2) == 0:
@@ -753,6 +815,12 @@ func (g *gen) job(idx int) Job {
 			default:
 				ps = append(ps, g.generic(rt+1))
 			}
+		}
+		if mode/3 == 0 || r.Intn(2) == 0 {
+			// each runtime with its own locale, somewhere in its list
+			loc := Pick(r, []string{"'de'", "'fr'", "'en-IN'", "'nl-NL'", "'en-US'", "'ja'", "'es'", "undefined"})
+			at := r.Intn(len(ps) + 1)
+			ps = append(ps[:at], append([]string{fmt.Sprintf(`wideProbe(%s, %d)`, loc, rt+1)}, ps[at:]...)...)
 		}
 		ps = append(ps, probeJS)
 		j.Progs = append(j.Progs, ps)
@@ -767,6 +835,8 @@ func (g *gen) job(idx int) Job {
 				j.TProgs = append(j.TProgs, Pick(r, pool))
 			case r.Intn(3) == 0:
 				j.TProgs = append(j.TProgs, g.postcopy(0))
+			case r.Intn(3) == 0:
+				j.TProgs = append(j.TProgs, g.native(0))
 			case r.Intn(2) == 0:
 				j.TProgs = append(j.TProgs, g.stateful(0))
 			default:
@@ -796,6 +866,8 @@ func pinnedJobs() []Job {
 					ps = append(ps, fmt.Sprintf(`callBound('p%d_%d')`, R, i))
 				}
 				ps = append(ps,
+					fmt.Sprintf(`goS.Hello.mark = %d; [typeof goS.Hello.mark, goS.Hello instanceof Function, Object.getPrototypeOf(goS.Hello) === Function.prototype, goS.Hello('p'), goS.Sum(%d, 1)].join() + '|' + nativeCensus()`, R, R),
+					fmt.Sprintf(`T.made[0].stack = 'rw%d'; T.caught[0].stack = %d; [typeof T.made[0].stack, String(T.made[0].stack).slice(0, 14), typeof T.caught[0].stack].join() + '|' + nativeCensus()`, R, R),
 					fmt.Sprintf(`function pcOuter%d() { return pcInner%d(); } function pcInner%d() { var c = pcInner%d.caller; return (c === pcOuter%d) + ':' + (c ? c.name : c); } pcOuter%d() + '|' + callerCensus()`, R, R, R, R, R, R),
 					fmt.Sprintf(`function pcF%d() {} var g = Object.getOwnPropertyDescriptor(pcF%d, 'caller').get; g['mk%d'] = %d; Object.getOwnPropertyNames(g).sort().join() + ':' + callerCensus()`, R, R, R, R))
 			} else {
@@ -809,10 +881,22 @@ func pinnedJobs() []Job {
 			j.Yield = append(j.Yield, rt%3)
 		}
 		if mode/3 == 1 {
-			j.TProgs = []string{`function tOuter() { return tInner(); } function tInner() { return (tInner.caller === tOuter) + ':' + callerCensus(); } tOuter()`, `callBound('t')`, `sweep('t')`, `glob += 100; T.counter.inc(); tOuter() + glob`}
+			j.TProgs = []string{`goS.Hello.mark = 't'; T.made[1].stack = 'rwT'; [typeof goS.Hello.mark, goS.Hello instanceof Function, typeof T.made[1].stack].join() + '|' + nativeCensus()`, `function tOuter() { return tInner(); } function tInner() { return (tInner.caller === tOuter) + ':' + callerCensus(); } tOuter()`, `callBound('t')`, `sweep('t')`, `glob += 100; T.counter.inc(); tOuter() + glob`}
 		}
 		js = append(js, j)
 	}
+	// fresh runtimes on different goroutines formatting with different locales and local time
+	loc := Job{Mode: 0, Pin: "pinned"}
+	for rt, l := range []string{"'de'", "'en-US'", "'fr'", "'en-IN'", "", "'nl-NL'"} {
+		var ps []string
+		for i := 0; i < 6; i++ {
+			ps = append(ps, fmt.Sprintf(`var out = []; for (var i = 0; i < 12; i++) { out.push((1234567.5 + i + %d).toLocaleString(%s)); if (i %% 4 == 0) yield(); } out.join(' ') + '|' + new Date(2000 + %d, %d, 1, 12).toLocaleString() + '|' + Math.round(Math.random())*0`, i, l, rt, i))
+		}
+		ps = append(ps, probeJS)
+		loc.Progs = append(loc.Progs, ps)
+		loc.Yield = append(loc.Yield, rt%3)
+	}
+	js = append(js, loc)
 	// a supervised template (Interrupt, limits, random source, debugger handler set before Copy), two
 	// copies that keep what Copy gave them, one that configures its own, and a copy of that copy
 	fam := Job{Mode: 9, Pin: "pinned", Family: []Member{
@@ -847,6 +931,32 @@ func resultText(o Outcome) string {
 func yieldFn() { goruntime.Gosched() }
 
 const defaultStackLimit = 400
+
+// Go values bridged into every template BEFORE any Copy.  Each template gets its own instances;
+// programs only call the (pure) methods and read the containers, because the Go data behind a
+// bridged value is shared with copies by design and writing it is the host's business.
+type goThing struct {
+	Name  string
+	Count int
+	Tags  []string
+}
+
+func (g *goThing) Hello(who string) string { return "hello " + who + " from " + g.Name }
+func (g *goThing) Sum(a, b int) int        { return a + b + g.Count }
+func (g goThing) Label() string            { return g.Name + "#" + fmt.Sprint(len(g.Tags)) }
+
+func bridge(vm *otto.Otto) {
+	Must(vm.Set("goS", &goThing{Name: "gs", Count: 7, Tags: []string{"a", "b"}}))
+	Must(vm.Set("goV", goThing{Name: "gv", Count: 1}))
+	Must(vm.Set("goM", map[string]interface{}{"a": 1, "b": "two", "c": []int{1, 2, 3}}))
+	Must(vm.Set("goL", []string{"x", "y", "z"}))
+	Must(vm.Set("goA", [3]int{4, 5, 6}))
+	Must(vm.Set("goF", func(a, b int) string { return fmt.Sprint(a*b, ":", a+b) }))
+	Must(vm.Set("goC", func(call otto.FunctionCall) otto.Value {
+		v, _ := call.Otto.ToValue(fmt.Sprint(len(call.ArgumentList), ":", call.Argument(0).String()))
+		return v
+	}))
+}
 
 var errHalt = errors.New("halt")
 
@@ -992,6 +1102,7 @@ func newTemplate(extra string) *otto.Otto {
 	vm := otto.New()
 	vm.SetStackDepthLimit(defaultStackLimit) // depthProbe() recurses until the limit
 	Must(vm.Set("yield", yieldFn))
+	bridge(vm)
 	if o := RunJS(vm, setupJS); o.Err != nil || o.Panic != nil {
 		panic(fmt.Sprintf("setup script failed: %v %v", o.Err, o.Panic))
 	}
@@ -1268,6 +1379,55 @@ func reportHead(s string) string {
 	return strings.Join(keep, " / ")
 }
 
+// ---- pinned witnesses of recorded findings (sequential, no goroutines) ----
+
+// status of a finding in /verif/known_findings.json (the merged list tools/check classifies with):
+// "open", "fixed" or "" when it is not listed (findings/C20.json not merged yet)
+func findingStatus(id string) string {
+	bs, err := os.ReadFile("known_findings.json")
+	if err != nil {
+		return ""
+	}
+	var k struct {
+		Findings []struct {
+			ID     string `json:"id"`
+			Status string `json:"status"`
+		} `json:"findings"`
+	}
+	if json.Unmarshal(bs, &k) != nil {
+		return ""
+	}
+	for _, f := range k.Findings {
+		if f.ID == id {
+			return f.Status
+		}
+	}
+	return ""
+}
+
+// C20-bridged-func-template-runtime (class 30): a Go func bridged into a template and called in a
+// copy builds its result with the TEMPLATE's runtime (the wrapper closure of runtime.toValue captures
+// rt), so the copy receives an object of the template's heap and can write the template's intrinsics.
+func pinnedFindings(env *Env) {
+	tpl := otto.New()
+	Must(tpl.Set("mk", func() []int { return []int{1, 2} }))
+	cp := tpl.Copy()
+	a := resultText(RunJS(cp, `var a = mk(); (Object.getPrototypeOf(a) === Array.prototype) + ':' + (a instanceof Array)`))
+	_ = RunJS(cp, `Object.getPrototypeOf(mk()).c20leak = 'from copy'; 0`)
+	b := resultText(RunJS(tpl, `String([].c20leak)`))
+	obs := a + "|" + b
+	const deviating, required = "false:false|from copy", "true:true|undefined"
+	txt := fmt.Sprintf("pinned finding C20-bridged-func-template-runtime: template.Set('mk', func() []int); copy := template.Copy(); copy: var a = mk(); (Object.getPrototypeOf(a) === Array.prototype) + ':' + (a instanceof Array); copy: Object.getPrototypeOf(mk()).c20leak = 'from copy'; template: String([].c20leak) => observed %q, recorded deviation %q, required %q", obs, deviating, required)
+	switch st := findingStatus("C20-bridged-func-template-runtime"); {
+	case st == "open":
+		env.Add(fmt.Sprintf("CPin 30 %s %s %s", cResult(obs), cResult(deviating), cResult(required)), txt, "pinned finding", true)
+	case obs == required || st == "fixed":
+		env.Add(fmt.Sprintf("CPin 30 %s %s %s", cResult(obs), cResult(required), cResult(required)), txt, "pinned finding", true)
+	default:
+		env.Extra["unmerged_finding"] = "C20-bridged-func-template-runtime reproduces (" + obs + ") but is not yet listed in known_findings.json (run tools/mkfindings); not judged in this run"
+	}
+}
+
 func cResult(s string) string {
 	u := Units(s)
 	h := fnv.New64a()
@@ -1337,6 +1497,7 @@ func main() {
 	}
 	wg.Wait()
 
+	pinnedFindings(env)
 	races, interleaved := 0, 0
 	var failures []string
 	for i, j := range jobs {
